@@ -16,7 +16,8 @@
 (*          nonce       "len0" "len5" "len11" "len12" "len13" "emptyopt"   *)
 (*          time bounds "y9999" "max53" "over53" "neg" (before 1970)       *)
 (*          args/meta   "null" "bool" "int" "max53" "min53" "floatfrac"    *)
-(*                      "floatint" "string" "bytes" "link" "list" "map"    *)
+(*                      "floatint" "string" "badutf8" (a string that is   *)
+(*                      not valid UTF-8) "bytes" "link" "list" "map"       *)
 (*                      "nested"                                           *)
 (*   alg    one of the six generatable key algorithms                      *)
 (*   codec  "dagcbor" | "dagjson";  decoder "generic" | "typed"            *)
@@ -26,6 +27,8 @@
 (*        2^53-1 s that no decoder accepts (pinned tree before the fix)    *)
 (*   "DagJsonIntegralFloat"  a float with an integral value does not       *)
 (*        survive DAG-JSON (go-ipld-prime writes 1.0 as 1): known finding  *)
+(*   "DagJsonInvalidUtf8"    a string that is not valid UTF-8 does not      *)
+(*        survive DAG-JSON (JSON text cannot carry it): known finding      *)
 (*   "P384P521NotParsed"     (fixed) issuer DIDs of these curves could not *)
 (*        be parsed back                                                   *)
 (***************************************************************************)
@@ -39,7 +42,7 @@ InvOpts == {"aud", "args", "meta", "nonce", "exp", "iat", "noiat", "cause"}
 PrincipalClasses == {"undef"}
 NonceClasses == {"len0", "len5", "len11", "len12", "len13", "emptyopt"}
 TimeClasses == {"y9999", "max53", "over53", "neg"}
-ValueClasses == {"null", "bool", "int", "max53", "min53", "floatfrac", "floatint", "string", "bytes", "link", "list", "map", "nested"}
+ValueClasses == {"null", "bool", "int", "max53", "min53", "floatfrac", "floatint", "string", "badutf8", "bytes", "link", "list", "map", "nested"}
 
 Specials(t) ==
   {[f |-> "none", c |-> "none"]}
@@ -69,6 +72,7 @@ UnsealOK(t, sp, alg, codec) ==
   /\ ~(sp.c = "over53")                                                    \* parse.OptionalTimestamp
   /\ ~(alg \in {"p384", "p521"} /\ "P384P521NotParsed" \in Deviations)
   /\ ~(codec = "dagjson" /\ sp.c = "floatint" /\ "DagJsonIntegralFloat" \in Deviations)
+  /\ ~(codec = "dagjson" /\ sp.c = "badutf8" /\ "DagJsonInvalidUtf8" \in Deviations)
 
 VARIABLE m
 vars == <<m>>
